@@ -698,6 +698,18 @@ func rulePANIC1(c *Ctx) []Ob {
 				}
 				name := c.fname(fn)
 				key := name + "/panic"
+				reraised := false
+				for _, og := range origins(pn.X) {
+					if cl, ok := og.(*ssa.Call); ok {
+						if b, ok := cl.Common().Value.(*ssa.Builtin); ok && b.Name() == "recover" {
+							reraised = true
+						}
+					}
+				}
+				if reraised {
+					o.add(OK, key+" (re-raise)", relPath(c, pn.Pos()), "re-raises the value obtained from recover(): not a new panic site")
+					continue
+				}
 				if tie, ok := panicTies[name]; ok {
 					o.add(OK, key, relPath(c, pn.Pos()), "explicit panic accounted for: %s", tie)
 				} else {
